@@ -189,10 +189,16 @@ pub enum RawOp {
 
 pub const NRPN_CONTROLLERS: [u8; 8] = [98, 99, 100, 101, 38, 6, 96, 97];
 
+/// values that carry a meaning somewhere in the MIDI specifications (registered parameter numbers
+/// 0-6 incl. the MPE configuration message, the null function 127, controller numbers that double
+/// as data bytes, channel-mode range, centre values)
+pub const SPEC_VALUES: [u8; 26] = [0, 1, 2, 3, 4, 5, 6, 7, 10, 15, 16, 31, 32, 38, 63, 64, 96, 97, 98, 99, 100, 101, 120, 121, 126, 127];
+
 fn value_strategy() -> impl Strategy<Value = u8> {
     prop_oneof![
         3 => prop::sample::select(vec![0u8, 1, 127, 64]),
-        7 => 0u8..128,
+        2 => prop::sample::select(SPEC_VALUES.to_vec()),
+        6 => 0u8..128,
     ]
 }
 
@@ -280,10 +286,16 @@ pub fn concretize(kind: Kind, h: &RawHistory, timeout_ns: u64) -> Vec<Op> {
         for (i, &ch) in subset.iter().enumerate() {
             if h.preselect & (1 << ch) != 0 {
                 let reg = (h.palette[0] as usize + i) % 2 == 0;
-                out.push(Op::cc(ch, if reg { 101 } else { 99 }, h.palette[1] * 4 + (i as u8 & 3)));
-                out.push(Op::cc(ch, if reg { 100 } else { 98 }, h.palette[2] * 4 + 1));
-                recent.push(h.palette[1] * 4 + (i as u8 & 3));
-                recent.push(h.palette[2] * 4 + 1);
+                // half of the preselected numbers are small registered-parameter style numbers (0, k)
+                let (nm, nl) = if (h.palette[0] as usize + i) % 4 < 2 {
+                    (0, SPEC_VALUES[(h.palette[2] as usize + i) % 9])
+                } else {
+                    (h.palette[1] * 4 + (i as u8 & 3), h.palette[2] * 4 + 1)
+                };
+                out.push(Op::cc(ch, if reg { 101 } else { 99 }, nm));
+                out.push(Op::cc(ch, if reg { 100 } else { 98 }, nl));
+                recent.push(nm);
+                recent.push(nl);
             }
         }
     }
